@@ -522,7 +522,9 @@ async fn run_e(serial: u64, with_gen: bool, nreq: usize) -> Result<String, Strin
             }));
         }
         for t in tasks {
-            t.await.map_err(|e| format!("join: {e}"))?.map_err(|e| format!("request: {e}"))?;
+            // a request may fail (e.g. its re-sent EXECUTE consumed another scripted UNPREPARED): irrelevant here,
+            // its frames were sent and are judged
+            let _ = t.await.map_err(|e| format!("join: {e}"))?;
         }
     }
     let consults = counting.calls.load(Ordering::SeqCst) - calls0;
